@@ -470,6 +470,11 @@ F_FAMS = [
     {'forms': ['x^2+30', 'x*x+30', '30+x^2'], 'neg': ['-x^2-30', '-(x*x+30)'], 'scaled': ['100*x^2+3000']},
     {'forms': ['x*y+50', 'y*x+50', '50+x*y'], 'neg': ['-x*y-50'], 'scaled': ['100*(x*y+50)']},
     {'forms': ['x+y+70', 'y+x+70', '70+y+x'], 'neg': ['-(x+y+70)'], 'scaled': ['100*(x+y+70)']},
+    # numbered-variable instances (a in [1, 3]): alternatives that mention different indices - each alternative needs its
+    # own instances sampled (a seeded change sampled once per submission, for the first alternative's names only)
+    {'forms': ['a_{1}+90', '90+a_{1}', 'a_{1}+45*2'], 'neg': ['-a_{1}-90'], 'scaled': ['100*(a_{1}+90)']},
+    {'forms': ['a_{2}+110', '110+a_{2}'], 'neg': ['-(a_{2}+110)'], 'scaled': ['100*a_{2}+11000']},
+    {'forms': ['a_{1}+a_{12}+130', '130+a_{12}+a_{1}'], 'neg': ['-a_{1}-a_{12}-130'], 'scaled': ['100*(a_{1}+a_{12}+130)']},
 ]
 F_OPTS = [{}, {}, {'tolerance': 0.001}, {'tolerance': 0.001}, {'tolerance': '1%'}]
 F_JUNK = ['x+10000', '-50000+y', 'z+1', '1/(x-x)', '', '   ', '\t']     # blank boxes are submissions too
@@ -540,7 +545,8 @@ def profiles(draw, kind):
         k = draw(st.integers(1, 3))
         opts = dict(pick(draw, F_OPTS if kind == 'F' else N_OPTS))
         if kind == 'F':
-            opts.update(variables=['x', 'y'], samples=draw(st.integers(2, 3)))
+            opts.update(variables=['x', 'y'], samples=draw(st.integers(2, 3)), numbered_vars=['a'],
+                        sample_from={'a': [1, 3]})
         return {'kind': kind, 'opts': opts, 'active': draw(st.permutations(range(len(fams))))[:k]}
     if kind == 'M':
         k = draw(st.integers(1, 3))
